@@ -333,12 +333,16 @@ def part_composition(ctx, scratch, quick):
             if "length" in chain[1:]:
                 chain = [c for c in chain if c != "length"] + ["length"]
                 chain.reverse()
-            base = r.choice(["name", "'Mixed Case lit'", "'  x y  '", "'ÄÖÜ straße'"])
+            # 'Name' / 'Size': literals that read like a column of this very select list — still literals
+            base = r.choice(["name", "'Mixed Case lit'", "'  x y  '", "'ÄÖÜ straße'", "'Name'", "'Size'"])
             expr = base
             for fn in reversed(chain):
                 expr = "%s(%s)" % (fn, expr)
             extra = r.choice(["substr(upper(name), 2, 3)", "length(replace(name, 'a', 'bb'))", "year(modified)", "month(modified)", "concat(lower(name), '-', size)",
                               "hex(size)", "abs(size - 100)", "coalesce(trim(''), upper(name))", "day(modified)", "length(to_base64(name))"])
+            if base in ("'Name'", "'Size'"):
+                # (no second column built from the same words: that would be the known cache-key collision D62, judged by C15)
+                extra = r.choice(["year(modified)", "month(modified)", "day(modified)"])
             q = "select name, size, %s, %s from . into list" % (expr, extra)
             ctx.case((t, q))
             ctx.distinct.add((t, q, "nt"))
